@@ -403,8 +403,15 @@ CompSpace comp_space(bool thorough)
         s.dm.push_back(k);
         if (k) { s.dm.push_back(-k); }
     }
+    // large single steps (tens of thousands of years): only representable from years near the ends of the range, where
+    // the result stays inside [-32767, 32767] (added after seeded breakage c11_year_month_bias_wrap: a biased unsigned
+    // month index wrapped for deltas below -524292 months)
+    for (long long k : {393204LL, 524280LL, 524291LL, 524292LL, 524293LL, 524304LL, 600000LL, 655344LL, 720000LL, 786000LL}) {
+        s.dm.push_back(k);
+        s.dm.push_back(-k);
+    }
     if (thorough) {
-        for (long long k : {1200LL, -1200LL, 4800LL, -4800LL, 393204LL, -393204LL, 786408LL, -786408LL}) { s.dm.push_back(k); }
+        for (long long k : {1200LL, -1200LL, 4800LL, -4800LL, 786408LL, -786408LL, 262146LL, -262146LL, 131073LL, -131073LL, 65536LL, -65536LL}) { s.dm.push_back(k); }
     }
     s.dy = {0, 1, -1, 2, -2, 400, -400};
     if (thorough) {
